@@ -34,9 +34,9 @@ class MFDeviceSet(DeviceSet):
     self._flows = flows
     self._devices = []
     if (device.lbounds < 0).any():
-      bounds = (device.lbounds, np.zeros(len(device)))
+      bounds = np.stack((device.lbounds, np.zeros(len(device))), axis=1)
     else: # (device.hbound > 0).any():
-      bounds = (np.zeros(len(device)), device.hbounds)
+      bounds = np.stack((np.zeros(len(device)), device.hbounds), axis=1)
     for flow in flows:
       self._devices.append(Device(flow, len(device), bounds))
 
